@@ -15,6 +15,7 @@ import CvDriver.C06b
 import CvDriver.C19b
 import CvDriver.C14b
 import CvDriver.C08b
+import CvDriver.C20b
 open Drv
 
 structure DState where
@@ -30,10 +31,11 @@ structure DState where
   acf : AcfSt := {}
   walkers : WalkersSt := {}
   vars : VarSt := {}
+  comb : CombSt := {}
 
 def stepLine (s : DState) (ln : Nat) (line : String) : DState × List String :=
   let t := toks line
-  let s := { s with geom := geomObserve s.geom t, ratchet := ratchetObserve s.ratchet t, acf := acfObserve s.acf t, vars := varObserve s.vars t }
+  let s := { s with geom := geomObserve s.geom t, ratchet := ratchetObserve s.ratchet t, acf := acfObserve s.acf t, vars := varObserve s.vars t, comb := combObserve s.comb t }
   match t with
   | [] => (s, [])
   | _ =>
@@ -44,6 +46,9 @@ def stepLine (s : DState) (ln : Nat) (line : String) : DState × List String :=
     | some o => (s, o)
     | none =>
     match c08b s.vars ln t with
+    | some o => (s, o)
+    | none =>
+    match c20b s.comb ln t with
     | some o => (s, o)
     | none =>
     match c19b s.acf ln t with
